@@ -123,6 +123,9 @@ class Sys:
                 from pjrpc.server.validators import pydantic as _vpd
                 v = _vpd.PydanticValidator()
                 for name, beh in table.items():
+                    if beh['kind'] == 'viewstate':
+                        methods.register_stateful_view(self.d, name, self.log, bool(coroutine_methods))
+                        continue
                     self.d.add(v.validate(methods.build_function(name, beh, self.log, is_async=coroutine_methods)), name=name)
             else:
                 methods.register(self.d, table, self.log, is_async=coroutine_methods)
